@@ -2247,6 +2247,25 @@ func (e *H05) AcceptReturn(r *ssa.Return, spec H05Spec) H05Accept {
 	}
 }
 
+// ResultsAt evaluates the results of return r for an arrival at its block through the edge from pred
+// (nil: inside the block) with the values env known: one abstract value per result (Unknown when the
+// result is not decided). It lets a caller-side walk go on with what a helper reported.
+func (e *H05) ResultsAt(r *ssa.Return, pred *ssa.BasicBlock, env H05Env) []H05Abs {
+	full := H05Env{}
+	for k, v := range e.Assumptions(r.Block()) {
+		full[k] = v
+	}
+	for k, v := range env {
+		full[k] = v
+	}
+	ev := &h05eval{e: e, env: full}
+	out := make([]H05Abs, len(r.Results))
+	for i, res := range r.Results {
+		out[i], _ = ev.eval(res, r.Block(), pred, 0)
+	}
+	return out
+}
+
 // FailingReturn: the return reports failure (in the sense of spec) however it is reached.
 func (e *H05) FailingReturn(r *ssa.Return, spec H05Spec) bool {
 	acc := e.AcceptReturn(r, spec)
